@@ -142,6 +142,46 @@ Proof. exact newton_ext. Qed.
 Theorem solver_raises : forall f c it s, f (x2 s) = None -> step f c it s = SFail FunRaise.
 Proof. exact step_raises. Qed.
 
+(* ---------------- direction: what "dissipation-weighted mean wave direction" means ---------------- *)
+
+(* the reported angle is the polar angle of the dissipation-weighted wavenumber vector (kx, ky) *)
+Theorem diss_direction_vector : forall D k g,
+  let kx := diss_kx D k g in let ky := diss_ky D k g in
+  kx <> 0 \/ ky <> 0 ->
+  kx = sqrt (kx² + ky²) * cos (diss_direction D k g * PI / 180) /\
+  ky = sqrt (kx² + ky²) * sin (diss_direction D k g * PI / 180) /\
+  0 < sqrt (kx² + ky²).
+Proof. exact diss_direction_vector. Qed.
+
+(* ... and that vector is  sum_ij k_i (cos theta_j, sin theta_j) (-D_ij) df_i dtheta_j  ([wgrid D k cs] is the
+   field  - k_i cs_j D_ij) *)
+Theorem diss_kx_weighted_sum : forall D k g,
+  diss_kx D k g = integrate2 (wgrid D k (map cos (g_theta g))) (g_df g) (g_dth g).
+Proof. exact diss_kx_weighted_sum. Qed.
+
+Theorem diss_ky_weighted_sum : forall D k g,
+  diss_ky D k g = integrate2 (wgrid D k (map sin (g_theta g))) (g_df g) (g_dth g).
+Proof. exact diss_ky_weighted_sum. Qed.
+
+(* the direction depends on the shape of the dissipation field only *)
+Theorem diss_direction_scale : forall c D k g, 0 < c ->
+  diss_direction (scale_field c D) k g = diss_direction D k g.
+Proof. exact diss_direction_scale. Qed.
+
+(* numpy's arctan2, modelled from atan by quadrant, is the polar angle *)
+Theorem atan2_spec : forall y x, x <> 0 \/ y <> 0 ->
+  x = sqrt (x² + y²) * cos (atan2 y x) /\ y = sqrt (x² + y²) * sin (atan2 y x).
+Proof. exact atan2_spec. Qed.
+
+(* PARTIAL (see Proofs/WindInversion.v): the step bound of a converged run is a bound on the balance itself
+   only when the final step is an untouched under-relaxed Newton/secant step *)
+Theorem newton_step_residual_partial : forall c s fx r0 r1 g0 g1 b d x,
+  d <> 0 -> c_relax c <> 0 ->
+  finish c s fx r0 r1 g0 g1 b (x2 s + - fx / d * c_relax c) = SDone x ->
+  x = x2 s + - fx / d * c_relax c ->
+  Rabs fx < c_atol c * Rabs d / Rabs (c_relax c).
+Proof. exact newton_step_residual_partial. Qed.
+
 (* ---------------- non-vacuity ---------------- *)
 (* f(x) = x - 3 from the guess 3: first bracket [1.5,4.5] has a sign change, one pass converges;
    the premises of the theorems above are met by concrete runs *)
